@@ -26,18 +26,6 @@ MODEL_FILES = ["MypyVerif/Model/Config.lean", "MypyVerif/Model/ConfigTable.lean"
                "MypyVerif/Proofs/ConfigCache.lean", "MypyVerif/Proofs/ConfigChain.lean",
                "MypyVerif/Proofs/ConfigStrings.lean"]
 
-# Defects of the unchanged tree found by this check, proposed for /verif/known_findings.json (the shared file
-# is the lead's; until the entries are there, they are taken from here — same matching rule, same printed line).
-PROPOSED_FINDINGS = os.path.join(os.path.dirname(os.path.abspath(__file__)), "proposed_known_findings.json")
-
-
-def load_proposed(ctx: Ctx) -> None:
-    have = {e.get("id") for e in ctx.findings}
-    for e in json.load(open(PROPOSED_FINDINGS))["findings"]:
-        if e.get("property") == ctx.prop and e.get("id") not in have:
-            ctx.findings.append(e)
-
-
 def translate(ctx: Ctx) -> dict:
     sys.path.insert(0, VERIF)
     from translate import options as tr
@@ -108,7 +96,6 @@ def obligations_search(ctx: Ctx, tables: dict) -> bool:
 def main(ctx: Ctx) -> None:
     from harness.c17 import keys, resolution, sources
     ctx.level = "proof"
-    load_proposed(ctx)
     ctx.coverage["rule"] = (
         "resolution: every ordered tuple of ≤ 3 distinct section patterns from a pool (12 fixed + seeded sample of the "
         "shapes concrete / foo.* / foo.bar.* / foo.*.bar / *.bar / odd ones over {a,b,c}) × option-setting schemes × 44 "
@@ -160,6 +147,7 @@ def main(ctx: Ctx) -> None:
         sources.locality(ctx, tables)
         sources.precedence_pairs(ctx, tables)
         sources.parsed_sections(ctx)
+        sources.section_tables(ctx)
         sources.diagnostics_equivalence(ctx, tables)
         sources.precedence_diagnostics(ctx)
         sources.findings_on_diagnostics(ctx)
@@ -208,6 +196,13 @@ def replay(ctx: Ctx, path: str) -> int:
         print("documented:", det.get("documented"))
     elif kind == "process":
         print(keys.real_process(ctx, det["ini"], det["cli"], 0))
+    elif kind == "section-table":
+        w = sources.Work(ctx, "replay")
+        o, err = w.options([], det["config_name"], det["config_text"])
+        print("config file %s:\n%s" % (det["config_name"], det["config_text"]))
+        print("per_module_options:", dict(o.per_module_options))
+        if "module" in det:
+            print(f"module {det['module']}: {det['key']} = {getattr(o.clone_for_module(det['module']), det['key'])}; documented: {det['documented']}")
     elif kind in ("equivalence", "locality", "precedence-pair", "parsed-sections"):
         w = sources.Work(ctx, "replay")
         cli = det.get("cli", [])
